@@ -455,3 +455,157 @@ pub(crate) mod prefix_sink {
         }
     }
 }
+
+// ---------------------------------------------------------------------------------------------
+// Progress counter (cut K12)
+// ---------------------------------------------------------------------------------------------
+pub(crate) static mut TICKS: usize = 0;
+pub(crate) static mut TICK_LIMIT: usize = usize::MAX;
+pub(crate) fn tick() {
+    unsafe {
+        TICKS += 1;
+        assert!(TICKS <= TICK_LIMIT, "C08.progress: Http1Codec::listen keeps iterating without reading from the transport (busy loop on an incomplete request head)");
+    }
+}
+pub(crate) fn set_tick_limit(n: usize) {
+    unsafe {
+        TICKS = 0;
+        TICK_LIMIT = n;
+    }
+}
+
+impl<const NR: usize, const NW: usize> crate::net_utils::PeerAddr for ScriptedIo<NR, NW> {
+    fn peer_addr(&self) -> std::io::Result<std::net::SocketAddr> {
+        Ok(std::net::SocketAddr::from(([203, 0, 113, 9], 4711)))
+    }
+}
+
+// ---------------------------------------------------------------------------------------------
+// Virtual time (cuts K4, K5) and a scripted pipe::Source
+// ---------------------------------------------------------------------------------------------
+pub(crate) static mut VNOW: u64 = 1_000_000_000_000; // nanoseconds; non-decreasing, advanced by the harness
+pub(crate) static mut TIMEOUT_FIRES: [bool; 8] = [false; 8]; // whether the i-th pending timeout elapses when polled
+pub(crate) static mut TIMEOUT_POLLS: usize = 0;
+pub(crate) static mut TIMEOUT_ADVANCE: [u64; 8] = [0; 8]; // how far past its deadline the i-th firing is observed (>= 1 ns)
+
+#[derive(Copy, Clone, PartialEq, Eq, PartialOrd, Ord, Debug)]
+pub(crate) struct Instant(pub u64);
+impl Instant {
+    pub(crate) fn now() -> Self {
+        unsafe { Instant(VNOW) }
+    }
+}
+impl std::ops::Sub<std::time::Duration> for Instant {
+    type Output = Instant;
+    fn sub(self, d: std::time::Duration) -> Instant {
+        Instant(self.0 - d.as_nanos() as u64)
+    }
+}
+impl std::ops::Add<std::time::Duration> for Instant {
+    type Output = Instant;
+    fn add(self, d: std::time::Duration) -> Instant {
+        Instant(self.0 + d.as_nanos() as u64)
+    }
+}
+
+pub(crate) struct Elapsed;
+
+/// Stand-in for `tokio::time::timeout`: polls the inner future first; while it is pending the harness decides
+/// (TIMEOUT_FIRES) whether the timer has fired.  A timer never fires early: when it fires the virtual clock is
+/// moved to deadline + TIMEOUT_ADVANCE (>= 1 ns) unless it is already later.
+pub(crate) struct VTimeout<F> {
+    inner: F,
+    deadline: u64,
+}
+pub(crate) fn vtimeout<F: Future>(d: std::time::Duration, inner: F) -> VTimeout<F> {
+    VTimeout { inner, deadline: unsafe { VNOW } + d.as_nanos() as u64 }
+}
+impl<F: Future + Unpin> Future for VTimeout<F> {
+    type Output = Result<F::Output, Elapsed>;
+    fn poll(mut self: Pin<&mut Self>, cx: &mut Context<'_>) -> Poll<Self::Output> {
+        if let Poll::Ready(x) = Pin::new(&mut self.inner).poll(cx) {
+            return Poll::Ready(Ok(x));
+        }
+        unsafe {
+            let i = if TIMEOUT_POLLS < 8 { TIMEOUT_POLLS } else { 7 };
+            TIMEOUT_POLLS += 1;
+            if TIMEOUT_FIRES[i] {
+                let at = self.deadline + if TIMEOUT_ADVANCE[i] == 0 { 1 } else { TIMEOUT_ADVANCE[i] };
+                if VNOW < at {
+                    VNOW = at;
+                }
+                return Poll::Ready(Err(Elapsed));
+            }
+        }
+        Poll::Pending
+    }
+}
+
+pub(crate) mod script_source {
+    use crate::{log_utils, pipe};
+    use bytes::Bytes;
+    use std::io;
+
+    pub(crate) static mut CONSUMED: usize = 0;
+    pub(crate) static mut CONSUME_CALLS: usize = 0;
+    pub(crate) static mut READS: usize = 0;
+    pub(crate) static mut METRIC_BYTES: usize = 0;
+
+    pub(crate) fn reset() {
+        unsafe {
+            CONSUMED = 0;
+            CONSUME_CALLS = 0;
+            READS = 0;
+            METRIC_BYTES = 0;
+        }
+    }
+    pub(crate) fn consumed() -> usize {
+        unsafe { CONSUMED }
+    }
+    pub(crate) fn reads() -> usize {
+        unsafe { READS }
+    }
+    pub(crate) fn metric_bytes() -> usize {
+        unsafe { METRIC_BYTES }
+    }
+    pub(crate) fn count_metric(_d: pipe::SimplexDirection, n: usize) {
+        unsafe {
+            METRIC_BYTES += n;
+        }
+    }
+
+    /// Delivers `chunks[0]`, `chunks[1]` (skipping empty ones) and then Eof; never pending.
+    pub(crate) struct ScriptSource {
+        pub chunks: [&'static [u8]; 2],
+        pub idx: usize,
+    }
+
+    #[async_trait::async_trait]
+    impl pipe::Source for ScriptSource {
+        fn id(&self) -> log_utils::IdChain<u64> {
+            log_utils::IdChain::empty()
+        }
+        async fn read(&mut self) -> io::Result<pipe::Data> {
+            unsafe {
+                READS += 1;
+            }
+            while self.idx < 2 && self.chunks[self.idx].is_empty() {
+                self.idx += 1;
+            }
+            if self.idx < 2 {
+                let c = self.chunks[self.idx];
+                self.idx += 1;
+                Ok(pipe::Data::Chunk(Bytes::from_static(c)))
+            } else {
+                Ok(pipe::Data::Eof)
+            }
+        }
+        fn consume(&mut self, size: usize) -> io::Result<()> {
+            unsafe {
+                CONSUMED += size;
+                CONSUME_CALLS += 1;
+            }
+            Ok(())
+        }
+    }
+}
